@@ -81,5 +81,12 @@ extern "C" void harness_c39_coeff()
     verif_assert(eq(*coeff(*pexp, *x, *integer(3)), *zero), "coefficient of an absent power is zero");
     RCP<const Basic> recon = add({mul(coeff(*pexp, *x, *integer(2)), pow(x, integer(2))), mul(coeff(*pexp, *x, *integer(1)), x), coeff(*pexp, *x, *integer(0))});
     verif_assert(eq(*expand(recon), *expand(pexp)), "sum of coeff(p,x,n) x^n reconstructs p");
+    // single-term products with a numeric coefficient: k * x**n * y (and a rational coefficient k/2)
+    long n = 1 + (long)verif_choice("n", 3);
+    RCP<const Number> k = verif_choice("half", 2) ? (RCP<const Number>)Rational::from_two_ints(*a, *integer(2)) : (RCP<const Number>)a;
+    RCP<const Basic> t = mul({k, pow(x, integer(n)), y});
+    verif_assert(eq(*coeff(*t, *x, *integer(n)), *mul(k, y)), "coeff(k*x**n*y, x, n) == k*y");
+    verif_assert(eq(*coeff(*t, *x, *integer(n + 1)), *zero), "coeff of another power of a single term is zero");
+    verif_assert(eq(*coeff(*t, *y, *integer(1)), *mul(k, pow(x, integer(n)))), "coeff(k*x**n*y, y, 1) == k*x**n");
     VERIF_END();
 }
